@@ -8,7 +8,7 @@ import common, odes, gen, allsims, sims
 from sims import err_enum
 from predchecks import strip
 
-KINDS = ["str", "tuple", "frozenset", "perm", "offset"]
+KINDS = ["str", "tuple", "frozenset", "perm", "offset", "fresh-tuple", "fresh-int", "fresh-str"]
 
 
 def flat(res):
